@@ -291,8 +291,11 @@ var properties = map[string]*propDef{
 		},
 		RequiredProbes: []string{"pledges_admitted", "concurrent_admissions", "stale_view_at_end", "proposal_retried_with_higher_key", "yield_lock"},
 		Units: []unit{{
-			Name: "aspen-pledge", Module: "aspen", Package: "./internal/cluster/pledge", Passes: allPasses,
+			Name: "aspen-pledge", Module: "aspen", Package: "./internal/cluster/pledge", Passes: allPasses, Engines: []string{"c11"},
 			QuickBudget: 25 * time.Second, QuickWorkers: 8, ThoroughBudget: 12 * time.Minute, ThoroughWorkers: 16,
+		}, {
+			Name: "aspen-cluster", Module: "aspen", Package: ".", Passes: allPasses, Engines: []string{"cluster"},
+			QuickBudget: 20 * time.Second, QuickWorkers: 8, ThoroughBudget: 8 * time.Minute, ThoroughWorkers: 16,
 		}},
 	},
 	"C12": {
